@@ -85,6 +85,15 @@ def site(draw, counter):
                                    "tags": e["tags"]}])
         else:
             parts.append(["lit", draw(st.sampled_from(LIT[base]))])
+    # different expressions with look-alike texts behind a first one
+    if draw(st.integers(0, 6)) == 0:
+        tw = draw(pyexprs.twins(exclude=excl))
+        for e in [draw(pyexprs.exprs(exclude=excl))] + tw:
+            counter[0] += 1
+            parts.append(["expr", {"src": e["src"],
+                                   "tag": "t%d" % counter[0],
+                                   "tags": e["tags"]}])
+            parts.append(["lit", "|"])
     # the very same expression text a second time in one site: it is
     # evaluated again (the recorder shows its tag twice)
     if draw(st.integers(0, 4)) == 0:
